@@ -102,7 +102,7 @@ CHECKS = {
         note=TRUST + "; behavioural difference is decided on the finite input table (a SAME verdict is not used)"),
     "C04": dict(
         level="model_checking", ref="3/C02",
-        technique="TLA+ oracle Catalogue (every edit edge classified DIFF/SAME by TLC's MiniGo evaluator, DIFF confirmed natively); for every edge the old and the new version of one function are compiled separately and compared by the real cli.ComputeDiff (`sfw diff`), report lines validated by TLC against FingerprintContract!C04OK (DIFF => not preserved and no fingerprint match; copy => preserved, nothing added or removed)",
+        technique="TLA+ design spec ZipperCF (data-flow pairings of decision trees: Preserved => same behaviour holds with the control-flow consistency pass, fails without it) model-checked by TLC; TLA+ oracle Catalogue (every edit edge classified DIFF/SAME by TLC's MiniGo evaluator, DIFF confirmed natively); for every edge the old and the new version of one function are compiled separately and compared by the real cli.ComputeDiff (`sfw diff`), report lines validated by TLC against FingerprintContract!C04OK (DIFF => not preserved and no fingerprint match; copy => preserved, nothing added or removed)",
         text="~9700 (thorough ~50000) old/new pairs from TLC's catalogue (one-hole edits incl. callee swaps and negated tests, exchanged if/else bodies, operands of - / % exchanged, invalid flips) under the same function name, a sample of them behind 2600 padding ifs (both versions beyond the 5000-block guard), and every base program, oversized functions and a file of rich Go shapes (select, goroutines, defer, closures, methods) against a separately compiled copy; every report line is validated by TLC.",
         note=TRUST + "; literal-only edits of literals the default policy abstracts are excluded (C02 requires their fingerprints to be equal)"),
     "C05": dict(
